@@ -137,6 +137,96 @@ def h_integ(ctx):
         ctx.cover("repartition")
 
 
+def contributing(kind_step, times, p0, p1, eps=0):
+    """Indices of the publications the exact integral over [p0, p1] depends on (from the definition).
+
+    Returns (certain, possible): equal for eps == 0 (symbolic mode, exact arithmetic); in the concrete
+    cross-validation the switch position ``step * gap`` is a rounded float, so pieces shorter than eps
+    seconds may or may not be seen by the implementation."""
+    lo, hi = set(), set()
+    for i in range(len(times) - 1):
+        ta, tb = times[i], times[i + 1]
+        if bool(p1 <= ta) or bool(p0 >= tb):
+            continue
+        if kind_step is None:
+            lo |= {i, i + 1}
+            hi |= {i, i + 1}
+            continue
+        a = _mx(p0, ta)
+        b = _mn(p1, tb)
+        g = _secs(tb - ta)
+        xa = _secs(a - ta)
+        xb = _secs(b - ta)
+        sw = kind_step * g
+        len_old = _mn(xb, sw) - xa
+        len_new = xb - _mx(xa, sw)
+        if bool(len_old > eps):
+            lo.add(i)
+        if bool(len_new > eps):
+            lo.add(i + 1)
+        if eps:
+            if len_old > -eps:
+                hi.add(i)
+            if len_new > -eps:
+                hi.add(i + 1)
+    return lo, (hi if eps else set(lo))
+
+
+def h_missing(ctx):
+    """Missing values (NaN / masked cells) reach a delivered integral only through publications that the
+    integral depends on.  Payload elements are hlib.Dep objects (dependency sets propagated by the real
+    arithmetic of the adapter, also through zero weights -- like 0*nan and 0*masked)."""
+    p = ctx.params
+    which, pattern, gaps_c = p["adapter"], p["pattern"], p["gaps"]
+    linear = p.get("linear", True)
+    hlib.reset_finam_state()
+    t0 = hlib.T0 if ctx.concrete else symx.SymDT.const(hlib.T0)
+    step = None if linear else ctx.real("step", lo=0, hi=1)
+    mk = {
+        "avg": lambda: fm.adapters.AvgOverTime(step=step),
+        "sum_per_time": lambda: fm.adapters.SumOverTime(step=step, per_time=True),
+        "sum_abs": lambda: fm.adapters.SumOverTime(step=step, per_time=False),
+    }[which]
+    units = "m/s" if which == "sum_per_time" else "m"
+    out, inp = hlib.linked_pair(fm.Info(time=t0, grid=fm.NoGrid(1), units=units), adapters=[mk()])
+    times = []
+    prev = t0
+    ri = 0
+    for ev in pattern:
+        if ev == "P":
+            i = len(times)
+            t = t0 if i == 0 else times[-1] + timedelta(microseconds=gaps_c[i - 1])
+            out.push_data(np.array([hlib.Dep({i})], dtype=object), t)
+            times.append(t)
+            continue
+        r = ctx.dt(f"p{ri}")
+        ctx.assume(r > prev)
+        try:
+            d = inp.pull_data(r)
+            res = "ok"
+        except FinamTimeError:
+            res = "time-error"
+        ctx.cover("pull:" + res)
+        if res != "ok":
+            ctx.log(f"pull{ri}", res)
+            return
+        got = hlib.scalar_of(d)
+        if not isinstance(got, hlib.Dep):
+            ctx.fail("payload-replaced", {"sig": which, "type": type(got).__name__})
+            return
+        exp, exp_hi = contributing(step, times, prev, r, eps=1e-7 if ctx.concrete else 0)
+        ctx.log(f"pull{ri}", "ok")
+        extra = sorted(got.deps - exp_hi)
+        lost = sorted(exp - got.deps)
+        sig = f"{which}:{'linear' if linear else 'step'}"
+        ctx.check(not extra, "missing-value-leaks-from-noncontributing-publication",
+                  {"sig": sig, "extra": extra, "used": sorted(got.deps), "contributing": sorted(exp)})
+        ctx.check(not lost, "contributing-publication-ignored",
+                  {"sig": sig, "lost": lost, "used": sorted(got.deps), "contributing": sorted(exp)})
+        prev = r
+        ri += 1
+
+
 def h_inductive(ctx):
     """One pull from an ARBITRARY state of an integration adapter.
 
@@ -228,6 +318,14 @@ def families(tier):
                     bounds=f"{which}, {'linear' if linear else 'step (symbolic position in [0,1])'} interpolation; pattern "
                            f"{pat}; concrete irregular gaps {gaps} us; symbolic values and strictly increasing pulls",
                     must_cover=["pull:ok"], query_timeout_ms=20000))
+            fams.append(dict(
+                name=f"{which}:{'linear' if linear else 'step'}:missing", ref="vf.props.c12:h_missing",
+                params={"adapter": which, "pattern": "PPPPRRR" if q else "PPPPPRRR",
+                        "gaps": [3000000, 1000000, 5000000, 2000000][: (3 if q else 4)], "linear": linear},
+                bounds=f"{which}, {'linear' if linear else 'step (symbolic position in [0,1])'}; missing-value "
+                       f"dependency sets (hlib.Dep payloads) for {4 if q else 5} publications with concrete irregular "
+                       f"gaps and 3 symbolic strictly increasing pulls",
+                must_cover=["pull:ok"], query_timeout_ms=20000))
             fams.append(dict(
                 name=f"{which}:{'linear' if linear else 'step'}:inductive", ref="vf.props.c12:h_inductive",
                 params={"adapter": which, "linear": linear, "gaps": [3000000, 1000000, 5000000][: (2 if q else 3)]},
